@@ -151,7 +151,7 @@ def main():
         subprocess.check_call("go build -o %s/vchk ./cmd/vchk && go build -o %s/mutgen ./cmd/mutgen" % (ROOT, ROOT),
                               shell=True, cwd=os.path.join(V, "checker"), env=ENV)
     mode = a[a.index("--mode") + 1] if "--mode" in a else "token"
-    muts = [json.loads(l) for l in subprocess.run([ROOT + "/mutgen", "-repo", REPO, "-mode", mode], capture_output=True, text=True).stdout.splitlines()]
+    muts = [json.loads(l) for l in subprocess.run([ROOT + "/mutgen", "-repo", REPO, "-mode", mode] + (["-typecheck"] if mode != "token" else []), capture_output=True, text=True).stdout.splitlines()]
     for i, m in enumerate(muts):
         m["id"] = ("m%04d" if mode == "token" else "s%04d") % i
     muts = [m for m in muts if os.path.basename(m["file"]) not in SKIP_FILES and (not files or m["file"] in files)]
